@@ -300,7 +300,14 @@ func (root *Root) addExtends(extends ...*Extend) (undo func(), err error) {
 			if cur == nil {
 				cur = root.dirs.get(x.Adds.Name())
 			}
-		} else if schema, _ := x.Adds.(*Schema); schema != nil && root.schema != nil {
+		} else if schema, _ := x.Adds.(*Schema); schema != nil {
+			// Without a schema block the schema is the one formed from the
+			// Query, Mutation, and Subscription types, also when they were
+			// defined in the same document as the extension.
+			if root.schema != nil {
+				undos = append(undos, root.schema.unextend())
+			}
+			root.assureSchema()
 			cur = root.schema
 		}
 		if cur == nil {
